@@ -10,6 +10,12 @@ the real library.  Their answers are compared with
       summed multiplicity) and the definitions over the expanded list                        -> disagreement
   (E) outcomes of the Method of Equal Shares: Cost_Sat => EJR-up-to-any, Cardinality_Sat =>
       EJR-up-to-one (library checker and brute-force definition)                              -> violation
+  (G) the enumeration the checkers loop over: `cohesive_groups(instance, profile)` as a multiset of (group as positions
+      in the profile, project set) pairs against an independent brute-force enumeration (violation) and against the Lean
+      model `JR.cohesiveGroupsBy` (driver command `cohesive`; disagreement); `is_cohesive_approval` /
+      `is_cohesive_cardinal` on sampled (group, project set, alpha) against the predicate (violation).  The helpers that no
+      checker calls (`maximal_cohesive_for_projects_approval`, `maximal_cohesive_groups`) are run and their behaviour
+      RECORDED in the evidence (distribution `outside_property:*`), never judged.
 """
 from __future__ import annotations
 
@@ -23,7 +29,8 @@ from ..core import Case, q2s
 RULE = ("approval / full-score cardinal elections with 1..5 voters (built from <=4 distinct ballots, so multiprofiles "
         "compress), 1..5 positive-cost projects, budgets placed on subset sums; every feasible allocation (a seeded sample "
         "of them for the largest elections in the quick tier) x measure x Profile/MultiProfile; non-trivial = at least one "
-        "cohesive (group, project set) pair exists and the ten answers are not all equal; distinct by case+allocation+measure")
+        "cohesive (group, project set) pair exists and the ten answers are not all equal; distinct by case+allocation+measure; "
+        "cohesive_groups: every generated election as Profile and MultiProfile against brute force and the model's enumeration")
 ASSUMPTIONS = [
     "exact-arithmetic mode", ">=1 voter, positive budget, positive exact costs",
     "cardinal ballots score every project with a non-negative score",
@@ -335,6 +342,124 @@ def flush_model(ctx, lines):
         ctx.sample(f"{line} -> impl {got} | model checkers {m_chk} definitions {m_def} | brute force {want}")
 
 
+# ----------------------------------------------------------------------------------------------
+# (G) the enumeration of cohesive groups
+
+
+def brute_cohesive(case: Case, entries):
+    """all (entry positions, project names) pairs that are cohesive: both non-empty, cost(T) * n <= (sum of multiplicities) * budget,
+    approval ballots: every ballot of the group contains all of T (cardinal ballots claim their pointwise minimum: nothing more)"""
+    n = sum(m for _, m in entries)
+    out = []
+    for r in range(1, len(entries) + 1):
+        for D in itertools.combinations(range(len(entries)), r):
+            size = sum(entries[i][1] for i in D)
+            for k in range(1, len(case.names) + 1):
+                for T in itertools.combinations(case.names, k):
+                    if not sum((case.cost[p] for p in T), F(0)) * n <= size * case.budget:
+                        continue
+                    if case.btype == "app" and not all(p in entries[i][0] for i in D for p in T):
+                        continue
+                    out.append((tuple(D), tuple(sorted(T))))
+    return sorted(out)
+
+
+def cohesive_part(ctx, case: Case, builds, lines, rng):
+    import pabutools.analysis.cohesiveness as coh
+
+    for multi in (False, True):
+        inst, projs, prof, entries = builds[multi]
+        pos = {id(b): i for i, b in enumerate(prof)}
+        cfg = {"part": "cohesive", "multi": multi}
+        sig = {"call": "cohesive_groups", "multi": multi, "kind": "cohesive_groups"}
+        try:
+            got = sorted((tuple(sorted(pos[id(b)] for b in group)), tuple(sorted(p.name for p in pset)))
+                         for group, pset in coh.cohesive_groups(inst, prof))
+        except Exception as e:  # noqa: BLE001
+            got = "err:" + core.err_enum(e)
+        want = brute_cohesive(case, entries)
+        ctx.evaluations += 1
+        ctx.count("cohesive_groups", ("multi" if multi else "list") + "/" + ("some" if want else "none"))
+        if want and len(entries) >= 2 and len(case.names) >= 2:
+            ctx.nontrivial.add((case.key(), "cohesive", multi))
+        if got != want:
+            ctx.violations.append({
+                "what": f"cohesive_groups returns {len(got) if isinstance(got, list) else got} pairs, the definition gives {len(want)}",
+                "case": case.to_json(), "cfg": cfg, "impl": got if isinstance(got, str) else [list(map(list, g)) for g in got][:40],
+                "expected": [list(map(list, g)) for g in want][:40], "sig": sig})
+        lines.append((f"cohesive {case.enc_common(entries)}", got, case, cfg))
+        # the two predicates on a few sampled (group, project set) pairs — cardinal: with an arbitrary alpha
+        ballots = list(prof)
+        for _ in range(3):
+            D = [i for i in range(len(ballots)) if rng.random() < 0.6]
+            T = [p for p in case.names if rng.random() < 0.5]
+            size = sum(entries[i][1] for i in D)
+            n = sum(m for _, m in entries)
+            large = sum((case.cost[p] for p in T), F(0)) * n <= size * case.budget
+            try:
+                if case.btype == "app":
+                    g = bool(coh.is_cohesive_approval(inst, prof, [projs[p] for p in T], [ballots[i] for i in D]))
+                    w = large and bool(D) and bool(T) and all(p in entries[i][0] for i in D for p in T)
+                    alpha = None
+                else:
+                    alpha = {p: F(rng.choice([0, 1, 1, 2, 3])) for p in T}
+                    g = bool(coh.is_cohesive_cardinal(inst, prof, [projs[p] for p in T], [ballots[i] for i in D],
+                                                      {projs[p]: core.to_num(a) for p, a in alpha.items()}))
+                    w = large and bool(D) and bool(T) and all(entries[i][0][p] >= alpha[p] for i in D for p in T)
+            except Exception as e:  # noqa: BLE001
+                g, w = "err:" + core.err_enum(e), (large and bool(D) and bool(T))
+                if not isinstance(w, bool):
+                    w = bool(w)
+            ctx.evaluations += 1
+            ctx.count("is_cohesive", f"{case.btype}/{w}")
+            if g != w:
+                ctx.violations.append({
+                    "what": f"is_cohesive_{'approval' if case.btype == 'app' else 'cardinal'} answers {g} for group {D} and projects {T}, the predicate says {w}",
+                    "case": case.to_json(), "cfg": dict(cfg, D=D, T=T, alpha=None if alpha is None else {p: q2s(a) for p, a in alpha.items()}),
+                    "impl": g, "expected": w,
+                    "sig": {"call": "is_cohesive_approval" if case.btype == "app" else "is_cohesive_cardinal", "multi": multi, "kind": "cohesive_predicate"}})
+        # helpers no checker calls: behaviour recorded, not judged (outside the property)
+        if case.btype == "app":
+            T = [p for p in case.names if rng.random() < 0.5]
+            try:
+                r = coh.maximal_cohesive_for_projects_approval(inst, prof, [projs[p] for p in T])
+                r = None if r is None else sorted(pos[id(b)] for b in r)
+            except Exception as e:  # noqa: BLE001
+                r = "err:" + core.err_enum(e)
+            D = [i for i in range(len(entries)) if all(p in entries[i][0] for p in T)]
+            size = sum(entries[i][1] for i in D)
+            n = sum(m for _, m in entries)
+            w = D if (D and sum((case.cost[p] for p in T), F(0)) * n <= size * case.budget) else None
+            ctx.count("outside_property:maximal_cohesive_for_projects_approval",
+                      ("multi" if multi else "list") + "/" + ("as_definition" if r == w else "differs(len(res)_ignores_multiplicity)" if multi else "differs"))
+        try:
+            coh.maximal_cohesive_groups(inst, prof)
+            ctx.count("outside_property:maximal_cohesive_groups", case.btype + "/returns")
+        except Exception as e:  # noqa: BLE001
+            ctx.count("outside_property:maximal_cohesive_groups", case.btype + "/raises " + type(e).__name__)
+
+
+def flush_cohesive(ctx, lines):
+    if not lines:
+        return
+    outs = core.run_driver([l[0] for l in lines])
+    for (line, got, case, cfg), out in zip(lines, outs):
+        o = out.strip()
+        model = None
+        if o == "ok" or o.startswith("ok "):
+            body = o[3:].strip()
+            model = []
+            for tok in (body.split(";") if body else []):
+                g, t = tok.split(":")
+                names = sorted(case.names[int(i)] for i in t.split(".") if i != "")
+                model.append((tuple(sorted(int(i) for i in g.split(".") if i != "")), tuple(names)))
+            model = sorted(model)
+        if model != got:
+            ctx.disagreements.append({"line": line, "impl": str(got)[:600], "model": o[:600], "what": "JR.cohesiveGroupsBy != cohesive_groups",
+                                      "case": case.to_json(), "cfg": cfg})
+        ctx.sample(f"{line} -> impl {len(got) if isinstance(got, list) else got} pairs | model {o[:200]}")
+
+
 def run(ctx):
     ctx.rule = RULE
     import pabutools
@@ -343,12 +468,15 @@ def run(ctx):
     n = ctx.scale(250, 2000)
     cap = ctx.scale(12, None)
     lines = []
+    coh_lines = []
+    coh_rng = random.Random(ctx.rng.getrandbits(48))
     for _ in range(n):
         if ctx.budget_s is not None and ctx.elapsed() > ctx.budget_s:
             break
         case = gen_case(ctx.rng)
         big = len(case.ballots) * len(case.names) >= 16
         check_case(ctx, case, lines, alloc_cap=(cap if big else None))
+        cohesive_case(ctx, case, coh_lines, coh_rng)
         if ctx.rng.random() < 0.3 and case.projects:
             # a second EDITION of the same election analysed in the same process: identical project names, ballots and
             # budget, other costs (anything remembered between calls under a key that ignores the costs shows here)
@@ -358,6 +486,16 @@ def run(ctx):
             ctx.count("editions", "recosted")
             check_case(ctx, recost, lines, alloc_cap=(cap if big else None))
     flush_model(ctx, lines)
+    flush_cohesive(ctx, coh_lines)
+
+
+def cohesive_case(ctx, case: Case, lines, rng):
+    builds = {}
+    for multi in (False, True):
+        inst, projs = core.build_instance(case)
+        prof = core.build_profile(case, inst, projs, multi=multi)
+        builds[multi] = (inst, projs, prof, core.profile_entries(case, prof))
+    cohesive_part(ctx, case, builds, lines, rng)
 
 
 def search(ctx, disagreements):
@@ -372,6 +510,14 @@ def search(ctx, disagreements):
 def replay(payload):
     case = Case.from_json(payload["case"])
     cfg = payload["cfg"]
+    if cfg.get("part") == "cohesive":
+        from ..vcheck import Ctx
+
+        ctx = Ctx("C14", "quick", 0)
+        cohesive_case(ctx, case, [], random.Random(case.seed))
+        if ctx.violations:
+            return False, "still fails: " + ctx.violations[0]["what"]
+        return True, "property holds on the replayed input: cohesive_groups = brute-force enumeration"
     sat, multi = cfg["sat"], cfg.get("multi", False)
     inst, projs = core.build_instance(case)
     prof = core.build_profile(case, inst, projs, multi=multi)
